@@ -4,3 +4,6 @@ def add_obligations(pack, tier):
     from contracts.packutil import run_contracts
     C16.run(tier, 0, pid='C17', pack=pack)
     run_contracts(pack, [(E.pre_check('C17'), E.WIT_F16, E.replay_pre_check), (E.eig_run('C17'),)])
+    from contracts import fn_criteria as K
+    run_contracts(pack, [(K.deltadelta('C17'), None, K.replay_deltadelta)])
+    K.bounded_types(pack, 'C17')
